@@ -10,7 +10,8 @@ for p in selftest/mutants/*.patch; do
   git -C /repo apply "$PWD/$p"
   out=$(./check "$prop" 2>&1); rc=$?
   git -C /repo apply -R "$PWD/$p"
-  if [ $rc -eq 1 ] && echo "$out" | grep -q "^VIOLATION property=$prop"; then
+  if echo "$out" | grep -q "load_failure"; then echo "INVALID $name: mutant does not compile"; fail=1
+  elif [ $rc -eq 1 ] && echo "$out" | grep -q "^VIOLATION property=$prop"; then
     echo "ok   $name: $(echo "$out" | grep -c '^VIOLATION') violation(s): $(echo "$out" | grep '^FAILED' | head -2 | cut -c8-90 | tr '\n' ';')"
   else
     echo "MISS $name: check exited $rc without violation"; fail=1
